@@ -14,6 +14,7 @@ import (
 
 	"gitlab.com/gomidi/midi/v2/internal/utils"
 	"gitlab.com/gomidi/midi/v2/internal/verifh/engine"
+	"gitlab.com/gomidi/midi/v2/internal/verifh/faultio"
 	"gitlab.com/gomidi/midi/v2/internal/verifh/refsmf"
 	sp "gitlab.com/gomidi/midi/v2/internal/verifh/smfspace"
 	"gitlab.com/gomidi/midi/v2/smf"
@@ -220,6 +221,64 @@ func vlqBeyond() {
 	ctx.Add("vlq_values_above_2^28", int64(len(vals)))
 }
 
+// twoWriters: two values written by two threads that are switched inside the
+// Write calls of their destinations (every schedule with at most two
+// switches): each output must be the bytes the value gives when written alone.
+func twoWriters() {
+	al := sp.FullAlphabet()
+	mk := func(k int) *sp.Inst {
+		ops := []sp.Op{{Kind: sp.OpAdd, D: 0, M1: k % len(al)}, {Kind: sp.OpAdd, D: 1, M1: (k + 3) % len(al)}, {Kind: sp.OpSMFAdd},
+			{Kind: sp.OpAdd, D: 2, M1: (k + 5) % len(al)}, {Kind: sp.OpClose, D: 0}, {Kind: sp.OpSMFAdd}}
+		return sp.Build(sp.Cfg{Ctor: 0, NoRS: k%2 == 1, TF: smf.MetricTicks(96)}, al, ops)
+	}
+	var refs [][]byte
+	for k := 0; k < 4; k++ {
+		var b bytes.Buffer
+		mk(k).S.WriteTo(&b)
+		refs = append(refs, b.Bytes())
+	}
+	var iv engine.Interleaver
+	for a := 0; a < 4; a++ {
+		for b := 0; b < 4; b++ {
+			var outs [2]bytes.Buffer
+			var errs [2]error
+			run := func(first, i, j int) {
+				outs = [2]bytes.Buffer{}
+				body := func(k, v int) func(yield func()) {
+					return func(yield func()) {
+						_, errs[k] = mk(v).S.WriteTo(&faultio.YieldWriter{W: &outs[k], Yield: yield})
+					}
+				}
+				iv.Run(first, i, j, body(0, a), body(1, b))
+			}
+			run(0, -1, -1)
+			ya, yb := iv.Yields()
+			for first := 0; first < 2; first++ {
+				n1, n2 := ya, yb
+				if first == 1 {
+					n1, n2 = yb, ya
+				}
+				for i := 1; i <= n1; i++ {
+					for j := -1; j <= n2; j++ {
+						if j == 0 {
+							continue
+						}
+						run(first, i, j)
+						ctx.Eval()
+						ctx.Add("two_writer_schedules", 1)
+						if errs[0] != nil || errs[1] != nil || !bytes.Equal(outs[0].Bytes(), refs[a]) || !bytes.Equal(outs[1].Bytes(), refs[b]) {
+							if ctx.SigCount("concurrent-writers:interference") < 5 {
+								ctx.Violation("concurrent-writers:interference", map[string]interface{}{"kind": "two-writers", "a": a, "b": b, "first": first, "switch_first_at_write": i, "switch_second_at_write": j,
+									"what": "two values written by two threads switched inside Write calls: an output differs from what the value gives when written alone"})
+							}
+						}
+					}
+				}
+			}
+		}
+	}
+}
+
 // writeFile: WriteFile must leave exactly the bytes WriteTo emits in the file,
 // also when the path already holds another (longer or shorter) file.
 func writeFile() {
@@ -317,7 +376,7 @@ func main() {
 			}
 		})
 	})
-	ctx.Jobs("writefile", 1, func(int) { writeFile() })
+	ctx.Jobs("writefile", 1, func(int) { writeFile(); twoWriters() })
 	const parts = 32
 	ctx.Jobs("vlq", parts, func(j int) {
 		step := uint64(1<<28) / parts
